@@ -65,7 +65,12 @@ func runC06Mode(r *simkit.Run, c Cfg, overHTTP bool) {
 // can be held open at every source call and at the pre-publication yield
 // points while readers run. Advertisement times grow monotonically so that
 // any reader going back in time is a stale read.
-func runC07(r *simkit.Run, c Cfg) {
+func runC07(r *simkit.Run, c Cfg) { runC07Mode(r, c, false) }
+
+// C07H: the same with the library's HTTP source between cache and sources.
+func runC07H(r *simkit.Run, c Cfg) { runC07Mode(r, c, true) }
+
+func runC07Mode(r *simkit.Run, c Cfg, overHTTP bool) {
 	tp := r.Tape
 	nsrc := tp.Range(1, 3, "nsrc")
 	ttl := time.Duration(tp.Range(2, 30, "ttl")) * time.Second
@@ -73,7 +78,7 @@ func runC07(r *simkit.Run, c Cfg) {
 	if tp.Chance(1, 2, "autorefresh") {
 		refreshIn = time.Duration(tp.Range(1, 10, "refreshIn")) * time.Second
 	}
-	d := pcSetup(r, nsrc, ttl, refreshIn, false, nil)
+	d := pcSetupMode(r, nsrc, ttl, refreshIn, false, overHTTP, nil)
 	d.mode = "c07"
 	d.failNum, d.failDen = 0, 10
 	if tp.Chance(1, 3, "faulty") {
@@ -108,4 +113,5 @@ func init() {
 	Register(&Scenario{Name: "C06", Property: "C06", Run: runC06})
 	Register(&Scenario{Name: "C06H", Property: "C06", Run: runC06H})
 	Register(&Scenario{Name: "C07", Property: "C07", Run: runC07})
+	Register(&Scenario{Name: "C07H", Property: "C07", Run: runC07H})
 }
